@@ -109,7 +109,7 @@ pub fn display_spec(n: u64, text: &str) -> Option<String> {
 
 pub fn run(ctx: &Ctx) -> Report {
   let mut report = Report::new(
-    "parse: integers 0..=4096 x 10 suffixes x case variants, two-decimal fractions, products around 2^53, unit-boundary values, malformed strings; \
+    "parse: integers 0..=4096 x 10 suffixes x case variants, two-decimal fractions, products around 2^53, unit-boundary values, malformed strings, near-miss suffixes (strings of up to four unit-name letters); \
      display: values around every unit boundary (1024^i*k +-1, rounding ties x.xx5), random u64 (log-uniform); \
      non-trivial = has a unit or a fraction (parse) / value >= 1024 (display); distinct by input text/value",
   );
@@ -160,6 +160,32 @@ pub fn run(ctx: &Ctx) -> Report {
       "99999999999999999999", "18446744073709551615", "18446744073709551616", "16eib", "15.99eib", "16383.99pib", "1e", "1b1", "1.5b", "0.5b", "0.999b",
     ] {
       texts.push(t.to_string());
+    }
+    // near-miss suffixes: every string of up to four letters over the letters that occur in unit names (the documented
+    // units are among them and must be accepted; everything else must be rejected)
+    {
+      let letters = ['k', 'm', 'g', 't', 'p', 'e', 'i', 'b', 'y', 's'];
+      let mut all: Vec<String> = vec![String::new()];
+      let mut frontier = vec![String::new()];
+      for _ in 0..4 {
+        let mut next = Vec::new();
+        for f in &frontier {
+          for l in letters {
+            next.push(format!("{f}{l}"));
+          }
+        }
+        all.extend(next.iter().cloned());
+        frontier = next;
+      }
+      let take = ctx.n(1500, 20_000) as usize;
+      rng.shuffle(&mut all);
+      for suf in all.into_iter().take(take) {
+        texts.push(format!("{}{}", rng.below(100), case_variant(&mut rng, &suf)));
+      }
+      for suf in ["ib", "kmib", "mgib", "gtib", "tpib", "peib", "kmgtpeib", "kkib", "kiib", "bib", "byteb", "bytesb", "sbyte", "kibyte", "kbyte", "mibytes"] {
+        texts.push(format!("7{suf}"));
+        texts.push(format!("7{}", suf.to_uppercase()));
+      }
     }
     for _ in 0..ctx.n(500, 20_000) {
       let alphabet: Vec<char> = "0123456789..kKmMgGtTpPeEiIbByYtTsS -+x,_".chars().collect();
